@@ -216,7 +216,7 @@ func describeN(v ssa.Value, depth int) string {
 	case *ssa.Call:
 		name := "call"
 		if c := x.Call.StaticCallee(); c != nil {
-			name = c.Name()
+			name = fnName(c)
 		} else if x.Call.IsInvoke() {
 			name = describeN(x.Call.Value, depth+1) + "." + x.Call.Method.Name()
 		} else if b, ok := x.Call.Value.(*ssa.Builtin); ok {
